@@ -39,8 +39,7 @@ NEED_OPS = ["map.Get", "map.Insert", "map.Set", "map.Remove", "map.Len", "map.Ke
             "flag.Set", "flag.Unset", "flag.Toggle", "flag.IsSet",
             "counter.Set", "counter.Increment", "counter.Decrement", "counter.Add", "counter.Subtract", "counter.Get", "counter.GetUint64", "counter.Reset",
             "i64.Set", "i64.Get", "u32.Set", "u32.Get", "u64.Set", "u64.Get", "str.Set", "str.Get", "sched.exec", "sched.reprice"]
-NEED_OUTCOMES = ["map.Insert:true", "map.Insert:false", "map.Get:hit", "map.Get:miss", "cont.Add:nil", "cont.Add:exists", "cont.Add:nilElement",
-                 "cont.Add:emptyName", "cont.Replace:nil", "cont.Get:nil", "cont.Get:invalidKey", "flag.Set:true", "flag.Set:false",
+NEED_OUTCOMES = ["map.Insert:true", "map.Insert:false", "map.Get:hit", "map.Get:miss", "cont.Add:nil", "cont.Add:err", "cont.Replace:nil", "cont.Replace:err", "cont.Get:nil", "cont.Get:err", "flag.Set:true", "flag.Set:false",
                  "sched.exec:repriced", "sched.exec:overlaps-reprice"]
 PRICED = ["SaveKeyValue", "ESDTNFTCreate", "ESDTNFTAddURI", "ESDTNFTUpdateAttributes", "ESDTNFTTransfer", "MultiESDTNFTTransfer"]
 # the other nine functions whose price a schedule change rewrites under mutExecution (base cost only)
@@ -275,9 +274,9 @@ def toy_rounds():
     add(True, "bulk", 0, [], [{"e": "bulk", "obj": "drain", "sum": 50, "drained": 44, "final": 6}, {"e": "bulk", "obj": "tas", "iters": 9, "winners": 9}])
     add(False, "bulk", 0, [], [{"e": "bulk", "obj": "drain", "sum": 50, "drained": 40, "final": 6}])
     add(False, "bulk", 0, [], [{"e": "bulk", "obj": "tas", "iters": 9, "winners": 10}])
-    add(True, "cont", 0, [(1, "Add", kv("f1", 3), "nil", 1, 2), (2, "Add", kv("f1", 4), "exists", 3, 4), (1, "Get", kv("f1", 0), {"id": 3, "err": "nil"}, 5, 6),
-                          (2, "Keys", kv("", 0), ["f1"], 7, 8), (1, "Add", kv("", 0), "nilElement", 9, 10), (1, "Add", kv("", 7), "emptyName", 11, 12),
-                          (2, "Replace", kv("f1", 9), "nil", 13, 14), (1, "Get", kv("f2", 0), {"id": 0, "err": "invalidKey"}, 15, 16), (1, "Len", kv("", 0), 1, 17, 18)], [])
+    add(True, "cont", 0, [(1, "Add", kv("f1", 3), "nil", 1, 2), (2, "Add", kv("f1", 4), "err", 3, 4), (1, "Get", kv("f1", 0), {"id": 3, "err": "nil"}, 5, 6),
+                          (2, "Keys", kv("", 0), ["f1"], 7, 8), (1, "Add", kv("", 0), "err", 9, 10), (1, "Add", kv("", 7), "err", 11, 12),
+                          (2, "Replace", kv("f1", 9), "nil", 13, 14), (1, "Get", kv("f2", 0), {"id": 0, "err": "err"}, 15, 16), (1, "Len", kv("", 0), 1, 17, 18)], [])
     add(False, "cont", 0, [(1, "Add", kv("f1", 3), "nil", 1, 2), (2, "Remove", kv("f1", 0), 0, 3, 4), (1, "Get", kv("f1", 0), {"id": 3, "err": "nil"}, 5, 6)], [])
     return R, expect
 
